@@ -148,6 +148,10 @@ func Respace(c *Change, r *rand.Rand) (*Change, bool) {
 			continue
 		}
 		pad := strings.Repeat(" ", 1+r.Intn(12))
+		if r.Intn(5) == 0 {
+			// far to the right: behind column 255, where a position no longer fits into a byte
+			pad = strings.Repeat(" ", 250+r.Intn(90))
+		}
 		var nt string
 		switch r.Intn(4) {
 		case 0:
